@@ -159,18 +159,22 @@ class GroundedEffect:
 
         return numerical_fluents
 
-    def apply(self, state: State) -> None:
+    def apply(self, state: State, previous_state: Optional[State] = None) -> None:
         """Applies the effect to the given state.
 
         :param state: the state in which the effect is applied.
+        :param previous_state: the state before the action, in which the numeric expressions are evaluated
+            (defaults to the state the effect is applied to).
         """
         self.logger.debug("The antecedents for the effect hold so applying the effect.")
         self._apply_discrete_effects(next_state_predicates=state.state_predicates)
+        evaluation_state = previous_state if previous_state is not None else state
         new_values = []
         for grounded_expression in self.grounded_numeric_effects:
             new_values.append(
                 self._update_single_numeric_expression(
-                    grounded_expression, previous_state_functions=state.state_fluents
+                    grounded_expression,
+                    previous_state_functions=evaluation_state.state_fluents,
                 )
             )
 
